@@ -117,9 +117,11 @@ NExpect(s, p, h, r, x, t, M) ==
       [] s = "TSI"  -> LET q == TSIStep(p, r, x)
                            a == Allow(8 * (p[1] + p[2]) + 8, 0, t, FxMulInt(M, 2))
                        IN  [st |-> q.st, exp |-> [kind |-> "guard", num |-> q.num, den |-> q.den, zero |-> FxZero, an |-> a, ad |-> a]]
-      [] s = "Vidya" -> LET q == VidyaStep(n, r, x)
-                        IN  [st |-> q.st, exp |-> [kind |-> "vidya", v |-> q.out, tol |-> Allow(8 * n + 8, 8, t, M),
-                                                   tot |-> q.tot, atot |-> Allow(n, 8, t, FxMulInt(M, 2))]]
+      [] s = "Vidya" -> LET aq == Allow(n, 8, t, FxMulInt(M, 2 * n))       \* sums of n changes, each up to 2M
+                            q  == VidyaStep(n, r, x, aq)
+                        IN  [st |-> q.st, exp |-> [kind |-> "vidya", v |-> q.out,
+                                                   tol |-> FxAdd(Allow(8 * n + 8, 8, t, M), q.st.eacc),
+                                                   tot |-> q.tot, atot |-> aq]]
       [] s = "TR"   -> LET q == TRStep(r, x) IN [st |-> q.st, exp |-> Abs(q.out, Allow(1, 0, t, FxMax(CMag(x), FxAbs(r))))]
       [] s = "HeikinAshi" -> LET q == HAStep(r, x)
                              IN  [st |-> q.st, exp |-> [kind |-> "candle", c |-> q.out, tol |-> Allow(8, 0, t, M)]]
